@@ -330,7 +330,7 @@ pub fn run(ctx: &Ctx) {
         ctx.listed("machine-word-integers", "text", "2^k (k = 15..256) and 10^k (k = 9..39) -3..+3, and values between 2^63 and 10^19 (etc.), written plain, signed, with a point, with an exponent: all entry points must accept them digit for digit", cases, check_text);
     }
     let max_digits = t.pick(1000usize, 4000);
-    let cases = t.pick(60_000u64, 2_000_000);
+    let cases = t.pick(300_000u64, 2_000_000);
     ctx.generated("grammar-numerals", "text", cases, "numerals from the grammar: digits to the tier limit, underscores, optional point, exponent families (small, scale around i64::MAX/MIN, +-2^63, 40-digit, leading zeros)", move || numeral_strategy(max_digits), check_text);
     ctx.generated("mutated-numerals", "text", cases, "1-2 byte-level mutations (insert / replace / delete) of a valid numeral with signs, points, underscores, NUL, Arabic-Indic and full-width digits, invalid UTF-8", move || mutated_strategy(max_digits.min(200)), check_text);
     ctx.generated("soup", "text", cases, "random strings of length 0..13 over a wider alphabet", soup_strategy, check_text);
